@@ -144,8 +144,12 @@ Merge2(l, r) ==
          ELSE <<y, SAdd(src, y.n, <<SGet(r.src, y.n)>>)>>
       sa == Star(a7.src, a7.vaSrc, l.va, r.va)
       sk == Star(sa[2], a7.vkSrc, l.vk, r.vk)
+      (* parameters converted to positional-only leave the pok bucket at the end of the pairwise merge *)
+      (* (the repair of the n-ary fold defect; without it MergeFold is unsound at arity 3)            *)
+      conv == SelectSeq(a7.pok, LAMBDA p : p.k = "po")
+      keep == SelectSeq(a7.pok, LAMBDA p : p.k # "po")
   IN IF a7.fail THEN Incompat
-     ELSE [tag |-> "sig", pos |-> a7.pos, pok |-> a7.pok, va |-> sa[1], kwo |-> a7.kwo, vk |-> sk[1],
+     ELSE [tag |-> "sig", pos |-> a7.pos \o conv, pok |-> keep, va |-> sa[1], kwo |-> a7.kwo, vk |-> sk[1],
            src |-> sk[2], depth |-> MergeDepths(l.depth, r.depth)]
 
 (* merge of n signatures: a left fold over *buckets*, as the code does it (the accumulator keeps a parameter in the *)
